@@ -7,8 +7,7 @@ data (`BOp.prec`, `BOp.assoc`, `Expr.prec`), `renderMin` (only the parentheses t
 Language of the theorems (`wfA`): numbers, strings, variables, grouping, `^`, unary `- + !`, `* / %`, `+ -`, concatenation
 (with its start-token rule), relational, `~ !~`, `in`, `&&`, `||`, `?:`, assignment to any lvalue, pre/post `++ --`, `$`
 (with the `$$x++ = $($x++)` rule: `renderMin` writes `$($x)++`), `a[i]`; both the plain (`pc = false`) and the
-print-argument (`pc = true`) context. Only the getline forms inside larger expressions are outside `wfA`
-(`same_grouping_full`); `c | getline` at the end is `pipe_getline_looser_than_concat`. -/
+print-argument (`pc = true`) context, and the getline forms as operands (`same_grouping_full`). -/
 namespace GoawkModel.C04
 
 /-- Writing a tree with every sub-expression parenthesised parses back to the tree. -/
@@ -66,16 +65,27 @@ theorem pipe_getline_looser_than_concat (a b : Expr) (rest : List Tok) (ha : wfA
     (h.1 3 (by simp [topLevel, Expr.prec, BOp.prec])) hf]
   simp only [stripRes, strip, h.2]
 
-/-- The full statement of the property over the model's whole expression language (`wfFull` = `wfA` plus the getline
-    forms `getline`, `getline lv`, `getline < f`, `getline lv < f`, `cmd | getline [lv]` as operands). Not proved:
-    `same_grouping_partial` covers `wfA`; getline operands are checked by the implementation-side oracle and by model
-    correspondence. -/
-def same_grouping_full : Prop :=
-  ∀ (e : Expr) (pc : Bool) (rest : List Tok), wfFull e = true → Follow pc rest →
+/-- The full statement of the property over the model's whole expression language (`wfFull`: every unary and binary
+    operator, `in`, `?:`, assignment to any lvalue, pre/post `++ --`, `$`, `a[i]`, and the getline forms `getline`,
+    `getline lv`, `getline < f`, `getline lv < f`, `cmd | getline [lv]` as operands): the minimally and the fully
+    parenthesised spelling both parse back to the tree. -/
+theorem same_grouping_full (e : Expr) (pc : Bool) (rest : List Tok) (hwf : wfFull e = true) (hf : Follow pc rest) :
     stripRes (parseExpr pc (renderMin pc e ++ rest)) = .ok (e, rest) ∧
-    stripRes (parseExpr pc (renderFull e ++ rest)) = .ok (e, rest)
+    stripRes (parseExpr pc (renderFull e ++ rest)) = .ok (e, rest) :=
+  ⟨parse_renderMin e (wfFull_wfA e hwf) pc rest hf, parse_renderFull e (wfFull_wfA e hwf) pc rest hf⟩
 
-/-- the proved part of `same_grouping_full` -/
+/-- What the theorems do not cover (model + correspondence only): multi-dimensional indices `a[i,j]`, `(i,j) in a`,
+    function calls, regex literals and `@`-fields are not in the model's expression type (the driver answers
+    `unsupported`), and the lvalue back-tracking `1 && x = 1` (beyond the table) has no theorem. Stated for an
+    abstract extension of the model. -/
+def same_grouping_beyond_model (Expr' Tok' : Type) (parse : Bool → List Tok' → Option (Expr' × List Tok'))
+    (renderMin : Bool → Expr' → List Tok') (renderFull : Expr' → List Tok') (strip : Expr' → Expr')
+    (wf : Expr' → Prop) (follow : Bool → List Tok' → Prop) : Prop :=
+  ∀ e pc rest, wf e → follow pc rest →
+    (parse pc (renderMin pc e ++ rest)).map (fun r => (strip r.1, r.2)) = some (e, rest) ∧
+    (parse pc (renderFull e ++ rest)).map (fun r => (strip r.1, r.2)) = some (e, rest)
+
+/-- the same statement over `wfA` (kept under its earlier name) -/
 theorem same_grouping_partial (e : Expr) (hwf : wfA e = true) (pc : Bool) (rest : List Tok) (hf : Follow pc rest) :
     stripRes (parseExpr pc (renderMin pc e ++ rest)) = .ok (e, rest) ∧
     stripRes (parseExpr pc (renderFull e ++ rest)) = .ok (e, rest) :=
@@ -110,6 +120,11 @@ example : wfA (.binary .pow (.incr true false (.field (.var 1))) (.unary .neg (.
 example : canon false 1 (.incr false false (.field (.group (.field (.var 0))))) = true := by decide
 example : parseExpr false [.dollar, .dollar, .name 0, .incr, .rbrace] =
     .ok (.field (.incr false false (.field (.var 0))), [.rbrace]) := by rfl
+/-- `(getline x0 < $1) > 0`, `x1 = (s2 s3 | getline a[1])`: getline forms as operands -/
+example : wfFull (.binary (.cmp .gt) (.getline .none (.var 0) (.field (.num 1))) (.num 0)) = true := by decide
+example : wfFull (.assign .set (.var 1) (.getline (.binary .concat (.str 2) (.str 3)) (.index 11 (.num 1)) .none)) = true := by decide
+example : parseExpr false [.getline, .name 0, .cmp .lt, .dollar, .num 1, .rbrace] =
+    .ok (.getline .none (.var 0) (.field (.num 1)), [.rbrace]) := by rfl
 example : isRedirect (.cmp .gt) = true ∧ isRedirect .pipe = true ∧ isRedirect .append = true := by decide
 /-- the theorems are not about an always-failing or always-same-answer parser: `1 - 2 - 3` groups to the left, `2 ^ 3 ^ 4` to the right -/
 example : parseExpr false [.num 1, .sub, .num 2, .sub, .num 3, .rbrace] =
